@@ -1,0 +1,171 @@
+//! Verification hooks (only compiled with `--cfg linfa_verif`): the stepper of `verif_hooks_c13`
+//! for any float type and any of the three permutable kernels (classification, one-class,
+//! regression), plus access to the `Svm` value `solve` returns.  Thin wrappers, no logic of their own.
+use super::verif_hooks_c13::{Dump, Solved};
+use super::{SolverParams, SolverState};
+use crate::permutable_kernel::{
+    Permutable, PermutableKernel, PermutableKernelOneClass, PermutableKernelRegression,
+};
+use crate::{Float, SeparatingHyperplane, Svm};
+use linfa_kernel::{Kernel, KernelInner, KernelMethod};
+use ndarray::{Array2, ArrayView2};
+
+enum Any<'a, F: Float> {
+    Class(SolverState<'a, F, PermutableKernel<F>>),
+    OneClass(SolverState<'a, F, PermutableKernelOneClass<F>>),
+    Regression(SolverState<'a, F, PermutableKernelRegression<F>>),
+}
+
+macro_rules! each {
+    ($v:expr, $s:ident => $e:expr) => {
+        match $v {
+            Any::Class($s) => $e,
+            Any::OneClass($s) => $e,
+            Any::Regression($s) => $e,
+        }
+    };
+}
+
+/// Which `Permutable` implementation wraps the kernel matrix.
+#[derive(Clone, Copy, Debug, PartialEq, Eq)]
+pub enum KernelKind {
+    /// `PermutableKernel` (label signs from the sample-ordered targets)
+    Class,
+    /// `PermutableKernelOneClass` (no signs)
+    OneClass,
+    /// `PermutableKernelRegression` (`2 n` variables over an `n x n` matrix, own sign list)
+    Regression,
+}
+
+pub struct StepperG<'a, F: Float> {
+    st: Any<'a, F>,
+}
+
+fn w<F: Float>(v: F) -> f64 {
+    v.to_f64().unwrap()
+}
+
+impl<'a, F: Float> StepperG<'a, F> {
+    /// `kernel` is the dense kernel matrix K; `method` is the tag `weighted_sum` evaluates for new
+    /// samples (`KernelMethod::Linear` publishes one weight vector).
+    #[allow(clippy::too_many_arguments)]
+    pub fn new(
+        kind: KernelKind,
+        kernel: Array2<F>,
+        method: KernelMethod<F>,
+        dataset: ArrayView2<'a, F>,
+        alpha: Vec<F>,
+        p: Vec<F>,
+        targets: Vec<bool>,
+        bounds: Vec<F>,
+        eps: F,
+        shrinking: bool,
+        nu_constraint: bool,
+    ) -> StepperG<'a, F> {
+        let kernel: Kernel<F> = Kernel { inner: KernelInner::Dense(kernel), method };
+        let params = SolverParams { eps, shrinking };
+        let st = match kind {
+            KernelKind::Class => Any::Class(SolverState::new(
+                alpha,
+                p,
+                targets.clone(),
+                dataset,
+                PermutableKernel::new(kernel, targets),
+                bounds,
+                params,
+                nu_constraint,
+            )),
+            KernelKind::OneClass => Any::OneClass(SolverState::new(
+                alpha,
+                p,
+                targets,
+                dataset,
+                PermutableKernelOneClass::new(kernel),
+                bounds,
+                params,
+                nu_constraint,
+            )),
+            KernelKind::Regression => Any::Regression(SolverState::new(
+                alpha,
+                p,
+                targets,
+                dataset,
+                PermutableKernelRegression::new(kernel),
+                bounds,
+                params,
+                nu_constraint,
+            )),
+        };
+        StepperG { st }
+    }
+    pub fn update(&mut self, i: usize, j: usize) {
+        each!(&mut self.st, s => s.update((i, j)))
+    }
+    pub fn swap(&mut self, i: usize, j: usize) {
+        each!(&mut self.st, s => s.swap(i, j))
+    }
+    pub fn do_shrinking(&mut self) {
+        each!(&mut self.st, s => s.do_shrinking())
+    }
+    pub fn reconstruct_gradient(&mut self) {
+        each!(&mut self.st, s => s.reconstruct_gradient())
+    }
+    pub fn select_working_set(&self) -> (usize, usize, bool) {
+        each!(&self.st, s => s.select_working_set())
+    }
+    pub fn calculate_rho(&mut self) -> F {
+        each!(&mut self.st, s => s.calculate_rho())
+    }
+    /// the field `r` (`calculate_rho_nu` stores it)
+    pub fn r(&self) -> F {
+        each!(&self.st, s => s.r)
+    }
+    pub fn dump(&self) -> Dump {
+        each!(&self.st, s => {
+            let n = s.ntotal();
+            Dump {
+                alpha: s.alpha.iter().map(|a| w(a.value)).collect(),
+                alpha_ub: s.alpha.iter().map(|a| w(a.upper_bound)).collect(),
+                gradient: s.gradient.iter().map(|v| w(*v)).collect(),
+                gradient_fixed: s.gradient_fixed.iter().map(|v| w(*v)).collect(),
+                active_set: s.active_set.clone(),
+                nactive: s.nactive,
+                unshrink: s.unshrink,
+                p: s.p.iter().map(|v| w(*v)).collect(),
+                targets: s.targets.clone(),
+                bounds: s.bounds.iter().map(|v| w(*v)).collect(),
+                q_rows: (0..n).map(|k| s.kernel.distances(k, n).into_iter().map(w).collect()).collect(),
+                q_diag: (0..n).map(|k| w(s.kernel.self_distance(k))).collect(),
+            }
+        })
+    }
+    /// the value `solve` returns, untouched
+    pub fn solve_svm(self) -> Svm<F, F> {
+        each!(self.st, s => s.solve())
+    }
+}
+
+/// Plain copy of the private parts of a solved model.
+pub fn solved<F: Float, T>(svm: &Svm<F, T>) -> Solved {
+    let (linear, support) = match &svm.sep_hyperplane {
+        SeparatingHyperplane::Linear(v) => (Some(v.iter().map(|x| w(*x)).collect()), None),
+        SeparatingHyperplane::WeightedCombination(sv) => {
+            (None, Some(sv.outer_iter().map(|r| r.iter().map(|x| w(*x)).collect()).collect()))
+        }
+    };
+    Solved {
+        alpha: svm.alpha.iter().map(|x| w(*x)).collect(),
+        rho: w(svm.rho),
+        r: svm.r.map(w),
+        obj: w(svm.obj),
+        iterations: svm.iterations,
+        reached_threshold: matches!(svm.exit_reason, crate::ExitReason::ReachedThreshold),
+        linear,
+        support,
+    }
+}
+
+/// The Platt coefficients `(A, B)` of a calibrated model.
+pub fn platt_coeffs<F: Float, T>(svm: &Svm<F, T>) -> Option<(f64, f64)> {
+    svm.probability_coeffs.map(|(a, b)| (w(a), w(b)))
+}
